@@ -83,7 +83,20 @@ class Server:
         data = b""
         self.last_hung = False
         try:
-            s.connect(self.sock)
+            # a refused / not-yet-possible connect is retried for a few seconds: only a listener that stays away is a finding
+            t_c = time.time()
+            while True:
+                try:
+                    s.connect(self.sock)
+                    break
+                except (ConnectionRefusedError, FileNotFoundError, BlockingIOError) as e:
+                    self.last_connect_error = repr(e)
+                    if time.time() - t_c > 5.0:
+                        raise
+                    time.sleep(0.05)
+                    s.close()
+                    s = socket.socket(socket.AF_UNIX, socket.SOCK_STREAM)
+                    s.settimeout(timeout)
             try:
                 s.sendall(raw)
             except (BrokenPipeError, ConnectionResetError):
@@ -540,7 +553,7 @@ def run_sequence(seed, n_req, fixed=True, services="api"):
         return dict(n=len(reqs), mismatches=mism, dropped=dropped, not_live=not_live, model_rc=m.returncode,
                     model_err=m.stderr.decode()[-500:], kinds=[r["kind"] for r in reqs],
                     statuses=[l[0].split(" ")[1] for l in impl_lines],
-                    stderr_tail=srv.stderr_tail() if (dropped or not_live) else "",
+                    stderr_tail=(srv.stderr_tail() + " connect: " + getattr(srv, "last_connect_error", "-")) if (dropped or not_live) else "",
                     sample=[" ".join(r["toks"])[:120] for r in reqs[:6]],
                     raws=[r["raw"][:400].decode("latin1") for r in reqs])
     finally:
